@@ -323,10 +323,13 @@ func (t *trial) dial(ctx context.Context, target string, _ ...grpc.DialOption) (
 		var err error
 		cc, err = grpc.NewClient("passthrough:///"+target, grpc.WithTransportCredentials(insecure.NewCredentials()))
 		if err != nil {
-			// Harness problem (never observed): surfaces as an unattributed error.
-			return nil, fmt.Errorf("harness: grpc.NewClient: %v", err)
+			// Never observed; if it happens this is simply one more failed dial.
+			cc = nil
+			d.Err = &dialErr{ID: d.ID, Cause: err}
+			d.Script += ":newclient-failed"
+		} else {
+			d.Conn = &connRec{ID: int(atomic.AddInt32(&t.connCtr, 1)), Dial: d, CC: cc}
 		}
-		d.Conn = &connRec{ID: int(atomic.AddInt32(&t.connCtr, 1)), Dial: d, CC: cc}
 	}
 	t.mu.Lock()
 	t.dials = append(t.dials, d)
@@ -1149,9 +1152,9 @@ func runTrial(r *vlib.Run, mode string, trialNo int, rng *rand.Rand) (alive bool
 
 func body(r *vlib.Run) {
 	alive := true
-	n := r.N(2400, 60000)
+	n := r.N(8000, 160000)
 	if r.Race {
-		n = r.N(300, 3000)
+		n = r.N(400, 4000)
 	}
 	r.ForTrials("mix", n, func(trialNo int, rng *rand.Rand) {
 		if alive {
@@ -1189,6 +1192,8 @@ func main() {
 			"an error naming an unknown dialer is accepted when an overlapping request for the same address named the unknown dialer (that path invokes no dial function)",
 		},
 		QuickShards: 8, ThoroughShards: 16,
+		RaceShardsQuick: 1, RaceShardsThorough: 2,
+		RaceAnchors: []string{"/connection/connection.go"}, RaceDeciding: false,
 		MinDistinctQuick: 300, MinDistinctThorough: 5000,
 		PostMerge: postMerge,
 		Body:      body,
